@@ -107,6 +107,21 @@ CLAIMED.update({
     },
 })
 
+CLAIMED.update({
+    "C14": {
+        "technique": "TLA+ model of the goroutine-level steps of Compile / initKnownFunctions (Conc) model-checked over all interleavings with negative controls; TLC-drawn schedules replayed on real goroutines in a -race build; recorded hook logs validated by TLC (TraceConc)",
+        "text": "TLC explores every interleaving of three goroutines issuing five calls at hook-point granularity and checks NoRace, InitOnce, ParamsUnchanged, ResultIsFunctionOfInput and deadlock freedom; the two negative-control configurations must fail. Schedules from tlc -simulate are replayed by the clock (no hand-offs that would hide races) on the real code built with -race, each round starting from a never-used function table; per-goroutine hook logs of free rounds are validated by TLC as behaviours of the model; bursts of 2/8/64 goroutines with mixed Compile/Parse/Scan calls run in fresh processes. Results must equal the same call alone for nil/zero/empty options, parameter maps must be unchanged, race reports are violations.",
+        "note": "Data races are detected by the Go race detector on the schedules and bursts the run executes; hooks exist only under build tag verif.",
+        "ref": "DESIGN.md 3.8, 4 (C14), 5",
+    },
+    "C16": {
+        "technique": "TLA+ model of the command-line loop (Cli) checked against the script-level reference for every script x layout, with a negative control; every terminal state concretised and run through the cmd/pql binary built from the working tree",
+        "text": "TLC enumerates every script of up to 3/4 statements over five statement kinds in every line layout and checks that the line-loop model prints exactly what the script demands (the pinned loop without the let prelude at end of input is a failing negative control). Each terminal state is concretised with lets whose values the queries use, semicolons inside strings and comments and several kinds of invalid statements, and fed to the real binary via stdin, one file, four files cut at arbitrary bytes, or with -o; stdout must be the library's SQL for each query with the accepted lets in scope followed by a blank line, exit status and stderr line count as the model says; plus an over-long line and an unreadable file.",
+        "note": "Empty statements between semicolons and an unterminated final let may or may not count as failures (left open by the property).",
+        "ref": "DESIGN.md 3.9, 4 (C16)",
+    },
+})
+
 NOT_YET = {}
 
 
